@@ -108,6 +108,16 @@ class FakeDatagramTransport:
         for level, typ, cdata in ancdata:
             if level == socket.IPPROTO_IPV6 and typ == socket.IPV6_PKTINFO:
                 local = cdata
+        if self.net.peek_fate()[0] == "senderr":
+            # the kernel refuses the datagram: the real transport catches the OSError from sendmsg() and reports it
+            # synchronously through protocol.error_received(), i.e. from inside the send call
+            fate = self.net.next_fate()
+            self.net.seq += 1
+            self.net.wire.append(dict(seq=self.net.seq, t=self.net.loop.time(), src=self.endpoint.addr, dst=(address[0], address[1]), data=bytes(data), fate=fate, srcname=self.endpoint.name, refused=True))
+            self.net.order += 1
+            self.net.events.append((self.net.loop.time(), "send-error", self.endpoint.name, (address[0], address[1]), self.net.order))
+            self.endpoint.iface.error_received(OSError(fate[1] if len(fate) > 1 else 101, "Network is unreachable (simulated sendmsg failure)"))
+            return
         self.net.transmit(self.endpoint, (address[0], address[1]), bytes(data), local)
 
     def close(self):
@@ -300,6 +310,11 @@ class SimNet:
         return ep
 
     # -- the wire ---------------------------------------------------------------------
+    def peek_fate(self):
+        if self.fate_i < len(self.fates):
+            return self.fates[self.fate_i]
+        return ["deliver", self.DEFAULT_DELAY]
+
     def next_fate(self):
         if self.fate_i < len(self.fates):
             f = self.fates[self.fate_i]
@@ -314,7 +329,7 @@ class SimNet:
         rec = dict(seq=self.seq, t=now, src=src.addr, dst=dst_addr, data=data, fate=fate, srcname=src.name)
         self.wire.append(rec)
         kind = fate[0]
-        if kind == "drop":
+        if kind in ("drop", "senderr"):  # (a raw peer's refused send is just a datagram that never leaves)
             return
         delays = fate[1:] if kind == "dup" else fate[1:2]
         for d in delays:
